@@ -16,14 +16,26 @@ def signature(v):
     return k
 
 
-def finding_class(d, text):
-    """DB2 only: the whitespace pre-pass (TAB / CR LF / U+3000 → blank) can CREATE the two-word `CURRENT DATE` inside a literal, which the DB2 text pre-pass then rewrites on
+BQ_IN_NAME = re.compile(r"""`[^`\n]*['"][^`\n'"]*`[^\n'"]*['"]`""")
+
+
+def finding_class(d, text, printed=""):
+    """(1) a name written as a quoted string that contains a back-quote ('x`y' as alias / table / column name): the printer puts names between back-quotes, and the
+    lexer has no escape for a back-quote inside a back-quoted name (F-C01-2) — recognised in the PRINTED text: a back-quoted region that holds a quote, a back-quote
+    and the closing quote.  (2) DB2 only: the whitespace pre-pass (TAB / CR LF / U+3000 → blank) can CREATE the two-word `CURRENT DATE` inside a literal, which the DB2 text pre-pass then rewrites on
     the second parse but not on the first (interplay of the two whole-text pre-passes, roots F-C06-1 and F-C06-3)"""
+    if "`" in text and BQ_IN_NAME.search(canon_unq(printed)):
+        return "name-with-back-quote"
     if d != "DB2":
         return None
     norm = text.replace("\r\n", "\n").replace("\t", " ").replace("\u3000", " ")
     pat = re.compile(r"CURRENT (DATE|TIME)")
     return "db2-current-created-by-whitespace-prepass" if len(pat.findall(norm)) > len(pat.findall(text)) else None
+
+
+def canon_unq(v):
+    """the printed text out of the canonical %xx; quoting of an RT answer"""
+    return re.sub(r"%([0-9a-f]+);", lambda m: chr(int(m.group(1), 16)), v.split("|", 1)[1] if "|" in v else "")
 
 
 def judge(ctx, d, text, answer, how):
@@ -34,7 +46,7 @@ def judge(ctx, d, text, answer, how):
         ctx.count("rt:" + (k if k in FINE else signature(v)))
         if k in FINE:
             continue
-        pfam.report(ctx, finding_class(d, text) or signature(v), {"kind": "input", "entry": "parse_statements + source", "dialect": d, "input": text,
+        pfam.report(ctx, finding_class(d, text, v) or signature(v), {"kind": "input", "entry": "parse_statements + source", "dialect": d, "input": text,
                                         "observed": v[:500], "oracle": "c01: statement %d: %s" % (i, k), "how_found": how})
 
 
